@@ -244,7 +244,10 @@ class Executor(object):
         for c in path.pc:
             if c.eq(goal):
                 return
-        self.obs.append(Ob(self.fn, name, list(path.pc), goal, lineno, kind))
+        ob = Ob(self.fn, name, list(path.pc), goal, lineno, kind)
+        hf = getattr(self, "hint_arrays_fn", None)
+        ob.hint_arrays = hf(path) if hf else []
+        self.obs.append(ob)
 
     def feasible(self, path):
         """decided on the ground part of the path condition only (E2)"""
